@@ -327,6 +327,16 @@ func HarnessC12Conc(st any) {
 	mk := func(id string) *http.Request {
 		return &http.Request{Method: "GET", Host: "h", URL: &url.URL{Path: "/u/" + id}, Header: http.Header{"X-Tok": {"h" + id}}}
 	}
+	// before the two requests: uses of the context pool that end early or go through a sub-context (an iterator
+	// loop left at its first match, a direct match through an infix catch-all route) must give back each context once
+	quiet := s.behave
+	s.behave = nil
+	serveCapture(s.r, &http.Request{Method: "GET", Host: "h", URL: &url.URL{Path: "/f/a/b/z"}, Header: http.Header{}})
+	s.behave = quiet
+	it := s.r.Iter()
+	for range it.Reverse(it.Methods(), "h", "/u/x") {
+		break
+	}
 	sym.Go(func() { serveCapture(s.r, mk("a")) })
 	sym.Go(func() { serveCapture(s.r, mk("b")) })
 	sym.Join()
